@@ -31,9 +31,9 @@ func init() {
 			"the race-detector tripwire is secondary (buffers >= 64 bytes); overlap and twin monitors decide ownership",
 		},
 		Strata: []fw.Stratum{
-			{Name: "mtu-0-16-all-payloaders", N: fw.Const(17*len(c08Kinds)*8, 17*len(c08Kinds)*200), Run: c08Small, Exhaustive: false},
-			{Name: "instance-runs", N: fw.Const(60000, 6000000), Run: c08Run},
-			{Name: "race-tripwire", N: fw.Const(2500, 250000), Run: c08Race, Race: true},
+			{Name: "mtu-0-16-all-payloaders", N: fw.Const(17*len(c08Kinds)*30, 17*len(c08Kinds)*600), Run: c08Small, Exhaustive: false},
+			{Name: "instance-runs", N: fw.Const(300000, 8000000), Run: c08Run},
+			{Name: "race-tripwire", N: fw.Const(6000, 300000), Run: c08Race, Race: true},
 		},
 	})
 }
